@@ -17,6 +17,7 @@ import (
 	"encoding/json"
 	"fmt"
 	"os"
+	"path/filepath"
 	"sort"
 	"strconv"
 	"strings"
@@ -114,6 +115,28 @@ type Harness struct {
 	e  *Env
 	rn *Runner
 	o  *vlib.Oracle
+
+	cwd string // scratch working directory (removed at the end)
+}
+
+const ruleText = "one case = (command, payload bytes, protocol state[, preceding messages]); distinct = distinct (command,state,payload); corpus of edge inputs and defect witnesses first, then per-command structured generators with lying counts / CompactSize forms / wrapping counts, a mutated copy of every third case, raw wire bytes for FetchMessage, boundary lengths, addr/getaddr against a peers database at its record limit, concurrent getdata/inv processing against inv routing in a child process, library entry points"
+const explText = "Real handlers (client/network via verif hook, on a synthetic chain) are run on every case and checked for panic / locks held after return (c.Mutex, Mutex_net, MutexRcv, TxMutex, peersdb, cfg and 7 more) / wall time (watchdog: a handler that does not return is a failure); the Lean model of the parsing layer is asked for the same payload and outcome class, reject reason and exposed parsed fields are compared. A child process runs a connection's own thread (getdata, inv, SendInvs) concurrently with NetRouteInv/NetRouteInvExt and a statistics reader, so that an unsynchronised access to the connection's shared maps (a fatal runtime error no recover() can catch) becomes an observation. Theorems (Props/C18) are about the model of the parsing layer and about the lock discipline facts regenerated from the source; the backend behind the parser is exercised but not modelled."
+
+// finish removes the scratch directories (vlib's Finish exits the process) and reports.
+func (h *Harness) finish(rule, expl string, wedged bool) {
+	if h.o != nil {
+		h.o.Close()
+	}
+	if !wedged {
+		h.e.Close()
+	} else {
+		os.RemoveAll(h.e.Dir) // a handler is still stuck inside the real code: do not call into it again
+	}
+	if h.cwd != "" {
+		os.Chdir(os.TempDir())
+		os.RemoveAll(h.cwd)
+	}
+	h.r.Finish(rule, expl)
 }
 
 // pendingHeader returns the header of a block waiting in BlocksToGet (nil if none).
@@ -180,6 +203,9 @@ func (h *Harness) key(cs Case, o Obs) string {
 		if len(o.Locks) == 0 {
 			what = "slow"
 		}
+		if o.Hang {
+			what = "hang:" + strings.Join(o.Locks, "+")
+		}
 	}
 	w := o.Where
 	if i := strings.LastIndex(w, "."); i >= 0 {
@@ -191,6 +217,12 @@ func (h *Harness) key(cs Case, o Obs) string {
 // One runs a case through the real code and the model and records the verdicts.
 func (h *Harness) One(cs Case) {
 	r := h.r
+	if cs.Cmd == "@conc" {
+		if cs.Conc != nil {
+			h.concOne(cs)
+		}
+		return
+	}
 	pl := cs.payload()
 	envNtx := -1
 	authGot := "0"
@@ -245,11 +277,18 @@ func (h *Harness) One(cs Case) {
 		if len(o.Locks) > 0 {
 			what += " locks still held after return: " + strings.Join(o.Locks, ",")
 		}
-		if o.Hang || o.Ms > 4000 {
+		if o.Hang {
+			what += fmt.Sprintf(" handler does not return (watchdog after %.0f ms)", o.Ms)
+		} else if o.Ms > 4000 {
 			what += fmt.Sprintf(" handler ran %.0f ms", o.Ms)
 		}
 		r.PropFail(h.key(cs, o), what, replay)
 		r.Hit("real:FAIL")
+		if o.Hang {
+			// the goroutine is still inside the handler (possibly holding locks): the state of the
+			// process can no longer be trusted, report what was found and stop
+			h.finish(ruleText+" (run stopped at the first handler that did not return)", explText, true)
+		}
 		return
 	}
 	r.Hit("real:ban=" + o.Ban)
@@ -506,15 +545,22 @@ func (h *Harness) compareWire(cs Case, o Obs, replay map[string]interface{}) {
 }
 
 func main() {
+	if os.Getenv("C18_CHILD") != "" {
+		childMain()
+		return
+	}
 	r := vlib.NewRun("C18")
+	if r.Replay != "" {
+		r.Replay, _ = filepath.Abs(r.Replay)
+	}
 	// client/network dumps "<hash>.bin" files of refused compact blocks into the current directory:
 	// run from a scratch directory so that nothing lands in /verif
+	cwd := ""
 	if d, err := os.MkdirTemp("", "vc18cwd"); err == nil {
 		os.Chdir(d)
-		defer os.RemoveAll(d)
+		cwd = d
 	}
 	e := NewEnv(r.Rng.Fork())
-	defer e.Close()
 	rn := NewRunner(e)
 	if os.Getenv("C18_PROBE") != "" {
 		probe(e, rn)
@@ -525,8 +571,7 @@ func main() {
 		fmt.Fprintln(os.Stderr, "cannot start oracle:", err)
 		os.Exit(3)
 	}
-	defer o.Close()
-	h := &Harness{r: r, e: e, rn: rn, o: o}
+	h := &Harness{r: r, e: e, rn: rn, o: o, cwd: cwd}
 	r.Assume = []string{
 		"the handlers are called through VerifDispatch (client/network/verif_export.go), a copy of the body of Run's loop; gen_c18 re-extracts Run's command table and gate on every run and Lean compares them with the frozen copy",
 		"what lies behind the parsing layer (peer database, header acceptance, mempool matching, block queue) runs for real in the harness but is NOT modelled; the model's verdict is compared up to the point where the backend decides",
@@ -552,7 +597,7 @@ func main() {
 		} else {
 			h.One(doc.Replay.Case)
 		}
-		r.Finish("replay of one recorded case", "replay")
+		h.finish("replay of one recorded case", "replay", false)
 	}
 
 	// 1. corpus (edge inputs + the witnesses of the seven repaired defects)
@@ -578,12 +623,17 @@ func main() {
 	}
 	// 4. boundary lengths: every command at 0..limit edges
 	h.boundaries(gen)
-	// 5. library entry points
+	// 5. addr / getaddr against a peers database that is at its record limit
+	h.fullDB(gen, r.N(400, 6000))
+	// 6. a connection's thread against inv routing and statistics, in a child process
+	for i := 0; i < r.N(1, 3); i++ {
+		h.One(Case{Cmd: "@conc", Note: "conc", Conc: &ConcSpec{Seed: gen.g.U64(), Rounds: r.N(200000, 1500000)}})
+	}
+	// 7. library entry points
 	libFuzz(r, e, r.Rng.Fork(), r.N(4000, 80000))
 
 	r.Extra["spare_headers_used"] = e.SpareIdx
-	r.Finish("one case = (command, payload bytes, protocol state[, preceding messages]); distinct = distinct (command,state,payload); corpus of edge inputs and defect witnesses first, then per-command structured generators with lying counts / CompactSize forms / wrapping counts, a mutated copy of every third case, raw wire bytes for FetchMessage, boundary lengths, library entry points",
-		"Real handlers (client/network via verif hook, on a synthetic chain) are run on every case and checked for panic / locks held after return (c.Mutex, Mutex_net, MutexRcv, TxMutex, peersdb, cfg and 7 more) / wall time; the Lean model of the parsing layer is asked for the same payload and outcome class, reject reason and exposed parsed fields are compared. Theorems (Props/C18) are about that model; the backend behind the parser is exercised but not modelled.")
+	h.finish(ruleText, explText, false)
 }
 
 func (h *Harness) oldWitnesses() {
